@@ -148,8 +148,19 @@ def at_rule(F, rep, rid, exempt, enum_exempt=()):
                         rep.fail(rid, key, f.where(n), 'lookup in %s which lacks rows for %s' % (r['n'], sorted(missing)))
                         continue
             if how is None:
-                # bound facts
+                # bound facts (a local initialised from X.size() is an alias of X.size())
+                alias = {}
+                for v in f.walk():
+                    if v.get('k') == 'Var' and v.get('c') and render(v['c'][0]) == rt + '.size()':
+                        alias[v['n']] = rt + '.size()'
+                rc2 = set(rc)
                 for c, t in rc:
+                    for a_, full in alias.items():
+                        if c.startswith(a_ + ' '):
+                            rc2.add((full + c[len(a_):], t))
+                for c, t in rc2:
+                    if t and c == '%s + 1 < %s.size()' % (at, rt):
+                        how = 'guarded by ' + c
                     if t and (c == '%s < %s.size()' % (at, rt) or c == '%s.size() > %s' % (rt, at)):
                         how = 'guarded by ' + c
                     if at == '0' and ((c == rt + '.empty()' and not t) or (t and c in (rt + '.size() == 1', rt + '.size() > 0', '!' + rt + '.empty()'))):
@@ -158,6 +169,20 @@ def at_rule(F, rep, rid, exempt, enum_exempt=()):
                         how = 'guarded by ' + c
                     if not t and (c == '%s.find(%s) == %s.end()' % (rt, at, rt) or c == '%s.count(%s) == 0' % (rt, at)):
                         how = 'guarded by not ' + c
+            if how is None and r.get('k') == 'Ref' and r.get('n') in MEMBERSHIP['isStandardUnitName'] and arg is not None and arg.get('k') == 'Ref' and arg.get('dk') == 'parm':
+                # wrapper: isStandardUnit(u) implies isStandardUnitName(u->name())
+                idx = next((i for i, p_ in enumerate(f.params) if p_['d'] == arg['d']), None)
+                cs_ = _callers(F, f)
+                if idx is not None and cs_:
+                    oks = []
+                    for g, call in cs_:
+                        a2 = unwrap_defarg(nth_arg(call, idx))
+                        t2 = render(a2)
+                        facts2 = ff(g).rendered_conds_at(call) or set()
+                        good = ('isStandardUnitName(%s)' % t2, True) in facts2 or (t2.endswith('->name()') and ('isStandardUnit(%s)' % t2[:-8], True) in facts2)
+                        oks.append(good)
+                    if all(oks):
+                        how = 'every caller establishes isStandardUnitName/isStandardUnit for the argument (%d callers)' % len(oks)
             if how is None:
                 for rec_fn, tabs in MEMBERSHIP.items():
                     if r.get('k') == 'Ref' and r.get('n') in tabs:
